@@ -379,3 +379,26 @@ def hidden_module_state(ctx, packages, allowed, why):
     if not findings:
         ctx.holds("-", "-", f"no process-wide state besides the registered tables: {why}")
     return findings
+
+
+def duplicate_dict_keys(ctx, relpaths, why):
+    """A dict display that spells the same constant key twice keeps the later entry only: the earlier row of a table is
+    lost without any error.  Scans every dict literal of the given modules; the expected count of findings is zero, the
+    floor counts the literals scanned."""
+    from ..model import norm as _norm
+    n = 0
+    for rel in relpaths:
+        mod = ctx.repo.module(rel)
+        for d in [x for x in ast.walk(mod.tree) if isinstance(x, ast.Dict)]:
+            n += 1
+            seen = {}
+            for k in d.keys:
+                if isinstance(k, ast.Constant):
+                    key = (type(k.value).__name__, k.value)
+                    if key in seen:
+                        ctx.violated(rel, "<table>", f"no table row is shadowed by a second row with the same key ({why})",
+                                     detail=f"key {k.value!r} at line {k.lineno} repeats line {seen[key]}: the first row is dropped silently", expected="every key once")
+                    else:
+                        seen[key] = k.lineno
+    ctx.floor("dict literals scanned for duplicate keys", n, 1)
+    ctx.holds("-", "-", f"scan for duplicate keys completed ({why})")
